@@ -154,6 +154,11 @@ mtext('C12',
 from .rules import scanner  # noqa: E402
 
 
+def _arm_atomic(ctx, rep):
+    from .rules import lexical
+    lexical.rule_arm_atomic(ctx, rep)
+
+
 def _policy_table(ctx, rep):
     from .rules import policy
     policy.rule_policy_table(ctx, rep)
@@ -169,7 +174,7 @@ reg(Prop('C06', 'other', [scanner.rule_occ_construction, scanner.rule_decimal_en
          "Decides the construction discipline of occurrences: B13 — Occurence is built at exactly one site with start/end copied from match_start/match_end and text/value/is_ordinal from the parameters; FindNumbers::number_end reads parser.is_ordinal() before string_and_value() (which resets) and passes the two components of that one result; number_advanced sets match_end = pos + 1 on every path and match_start only for an empty span; number_end closes the span on every path; FindNumbers::new is private and both callers pass input.enumerate(). B7-DECIMAL-ENTRY — decimal mode is entered only for a rejected word, not already decimal, non-empty non-ordinal integer part, separator word, and returns Incomplete (decimal xor ordinal). B7-RESET-MUST — the decimal formatter runs iff is_dec && !dec_part.is_empty(), with (int_part, dec_part). From these checked facts spans are increasing, disjoint, in-stream and begin/end on accepted word tokens (hand argument: match_start <= pos < match_end, match_start := match_end after each number). Does NOT decide value = read(text) numerically (std float parsing) nor numeral shape of the formatted text (see C04/C05 template rules)."))
 reg(Prop('C10', 'other', [scanner.rule_reset_must, scanner.rule_scratch_hygiene, builder.rule_field_coverage, _policy_table],
          "Decides the absence of the carriers of cross-talk: B7-RESET-MUST (every path through string_and_value resets the parser after formatting), B6 (DigitString::reset covers all five fields; WordToDigitParser::reset covers all fields but lang), B7-SCRATCH-HYGIENE (typestate over the annotation passes: a scratch builder is Fresh whenever handed to apply, Dirty on a success edge until reset — the breach behind `du 109` vs `du 100 neuf`). Together with C09's B16 (a breaker forgets the last kind; on_hold is overwritten or taken on every path of number_end) nothing said several words earlier can reach a later number. Does NOT decide rewrite(A S B) = rewrite(A) S rewrite(B) itself, a relational property over pairs of runs."))
-reg(Prop('C07', 'other', [scanner.rule_shared_interpreter, builder.rule_fail_atomic, scanner.rule_scanner_structure, scanner.rule_reset_must],
+reg(Prop('C07', 'other', [scanner.rule_shared_interpreter, _arm_atomic, builder.rule_fail_atomic, scanner.rule_scanner_structure, scanner.rule_reset_must],
          "Decides the mechanisms behind scanner/validator agreement: B15 (one interpreter, two drivers: apply is called only from exec_group, WordToDigitParser::push, the facade, the apply_decimal forwarders and the annotation passes; text2digits = exec_group over the lowercased, whitespace-split text + format_and_value), B3 (a rejected builder operation leaves no digits behind — the breach behind '1000000001 1000000000'), B14-SCANNER (reject -> number_end -> retry on the reset parser with the token's own text; Incomplete never advances a span so no span ends on a dangling conjunction), B7-RESET-MUST (the parser is reset by string_and_value before the retry). Does NOT decide the converse direction (every validated phrase is scanned as one number) nor threshold-0 completeness: both compare two run-time traversals of the word table."))
 
 from .rules import textflow  # noqa: E402
